@@ -57,6 +57,7 @@ func c06Parse(path string) ([]*c06Event, error) {
 	var evs []*c06Event
 	nWrites := map[string]int{}
 	nFsyncs := map[string]int{}
+	nOpenats := map[string]int{}
 	pending := map[string]string{}
 	sc := bufio.NewScanner(f)
 	sc.Buffer(make([]byte, 1<<20), 1<<24)
@@ -84,6 +85,10 @@ func c06Parse(path string) ([]*c06Event, error) {
 		if ev.name == "fsync" {
 			nFsyncs[ev.pid]++
 			ev.ord = nFsyncs[ev.pid]
+		}
+		if ev.name == "openat" {
+			nOpenats[ev.pid]++
+			ev.ord = nOpenats[ev.pid]
 		}
 		ev.ret, _ = strconv.ParseInt(m[4], 10, 64)
 		args := m[3]
@@ -378,6 +383,12 @@ func (m *c06Model) judge(targets []c06Target, dirChoice map[string]int, dataChoi
 		if in.writer < 0 {
 			want, known = in.len, true // written before the workload started, fully durable at start
 		}
+		if in.writer >= 1000 {
+			// start-up of a restarted process: several checkpoints, each in its own
+			// temporary file; a version is complete when everything that was ever
+			// written to its file is there
+			want, known = in.len, true
+		}
 		state := "complete"
 		switch {
 		case !known:
@@ -405,6 +416,8 @@ type c06Replay struct {
 	Inject   int            `json:"enospc_at_write,omitempty"`
 	InjectFsync int         `json:"eio_at_fsync,omitempty"`
 	UnsafeEnv   bool        `json:"snapd_unsafe_io_in_environment,omitempty"`
+	InjectOpenat int        `json:"emfile_at_openat,omitempty"`
+	Restart      bool       `json:"restart_with_existing_state_file,omitempty"`
 	NOps     int            `json:"nops"`
 	CrashAt  int            `json:"crash_after_event"`
 	DirCh    map[string]int `json:"dir_ops_persisted"`
@@ -443,7 +456,9 @@ func c06BuildDriver(scratch string) string {
 type c06Fault struct {
 	write     int
 	fsync     int
+	openat    int // the openat-th openat of the main thread fails with EMFILE
 	unsafeEnv bool
+	restart   bool // the traced process is a restart: a previous process left its state file
 }
 
 func c06Trace(bin, scratch string, seed uint64, idx, nops int, inject int) ([]*c06Event, string) {
@@ -455,6 +470,15 @@ func c06TraceFault(bin, scratch string, seed uint64, idx, nops int, fault c06Fau
 	root := filepath.Join(scratch, fmt.Sprintf("root%d", idx))
 	os.RemoveAll(root)
 	os.MkdirAll(root, 0755)
+	if fault.restart {
+		// the previous process (not traced)
+		prev := exec.Command(bin, root, strconv.FormatUint(seed*1000+uint64(idx)+500, 10), "2")
+		prev.Env = append(os.Environ(), "GOMAXPROCS=1", "SNAPD_DEBUG=0")
+		if out, err := prev.CombinedOutput(); err != nil {
+			fmt.Fprintf(os.Stderr, "%s\n", out)
+			die(2, "the workload driver (previous process) failed: %v", err)
+		}
+	}
 	tr := filepath.Join(scratch, fmt.Sprintf("trace%d.txt", idx))
 	args := []string{"-f", "-y", "-s", "96", "-e", "signal=none",
 		"-e", "trace=openat,open,creat,write,pwrite64,fsync,fdatasync,rename,renameat,renameat2,unlink,unlinkat,close,ftruncate,faccessat,faccessat2,access,link,linkat,sync,syncfs"}
@@ -463,6 +487,9 @@ func c06TraceFault(bin, scratch string, seed uint64, idx, nops int, fault c06Fau
 	}
 	if fault.fsync > 0 {
 		args = append(args, "-e", fmt.Sprintf("inject=fsync:error=EIO:when=%d", fault.fsync))
+	}
+	if fault.openat > 0 {
+		args = append(args, "-e", fmt.Sprintf("inject=openat:error=EMFILE:when=%d", fault.openat))
 	}
 	args = append(args, "-o", tr, bin, root, strconv.FormatUint(seed*1000+uint64(idx), 10), strconv.Itoa(nops))
 	cmd := exec.Command("strace", args...)
@@ -476,6 +503,9 @@ func c06TraceFault(bin, scratch string, seed uint64, idx, nops int, fault c06Fau
 	cmd.Env = append(env, "GOMAXPROCS=1", "SNAPD_DEBUG=0")
 	if fault.unsafeEnv {
 		cmd.Env = append(cmd.Env, "SNAPD_UNSAFE_IO=1")
+	}
+	if fault.restart {
+		cmd.Env = append(cmd.Env, "VERIF_C06_RESTART=1")
 	}
 	out, err := cmd.CombinedOutput()
 	if err != nil {
@@ -784,7 +814,7 @@ func runC06(s *spec, tier string, seed uint64, scratch string) int {
 		if err := json.Unmarshal(b, &rp); err != nil {
 			die(2, "%v", err)
 		}
-		evs, root := c06TraceFault(bin, scratch, rp.Seed, rp.Trace, rp.NOps, c06Fault{write: rp.Inject, fsync: rp.InjectFsync, unsafeEnv: rp.UnsafeEnv})
+		evs, root := c06TraceFault(bin, scratch, rp.Seed, rp.Trace, rp.NOps, c06Fault{write: rp.Inject, fsync: rp.InjectFsync, unsafeEnv: rp.UnsafeEnv, openat: rp.InjectOpenat, restart: rp.Restart})
 		st := &c06Stats{fps: map[string]struct{}{}, faults: map[string]int64{}, opKinds: map[string]int64{}}
 		found := c06Explore(evs, root, rp.Seed, rp.Trace, rp.NOps, st, &rp, 1)
 		for _, f := range found {
@@ -892,6 +922,46 @@ func runC06(s *spec, tier string, seed uint64, scratch string) int {
 			st.traces++
 			st.faults["unsafe-io-variable-in-environment-traces"]++
 			os.RemoveAll(root2)
+		}
+		// every workload is also run as a restart: the state file of a previous
+		// process exists when this one starts
+		{
+			evs2, root2 := c06TraceFault(bin, scratch, seed, i, nops, c06Fault{restart: true})
+			found2 := c06Explore(evs2, root2, seed, i, nops, st, nil, limit)
+			for _, f := range found2 {
+				f.Restart = true
+			}
+			all = append(all, found2...)
+			st.traces++
+			st.faults["restart-with-existing-state-file-traces"]++
+			os.RemoveAll(root2)
+		}
+		// and with one open of an existing file or directory failing (EMFILE)
+		{
+			var opens []int
+			started := false
+			mainThread := ""
+			for _, ev := range evs {
+				if ev.name == "marker" && ev.path == "start" {
+					started = true
+					mainThread = ev.pid
+				}
+				if ev.name == "openat" && started && ev.pid == mainThread && !strings.Contains(ev.flags, "O_CREAT") {
+					opens = append(opens, ev.ord)
+				}
+			}
+			if len(opens) > 0 {
+				k := opens[int((seed*41+uint64(i)*7)%uint64(len(opens)))]
+				evs2, root2 := c06TraceFault(bin, scratch, seed, i, nops, c06Fault{openat: k})
+				found2 := c06Explore(evs2, root2, seed, i, nops, st, nil, limit)
+				for _, f := range found2 {
+					f.InjectOpenat = k
+				}
+				all = append(all, found2...)
+				st.traces++
+				st.faults["open-emfile-injected-traces"]++
+				os.RemoveAll(root2)
+			}
 		}
 		if len(all) > 0 && i >= 1 {
 			break
